@@ -187,20 +187,6 @@ theorem output_series_identified_by_grouped_labels (o : Oracles) (g : Grouping) 
     o.cityHash (keptLabels g m1) = o.cityHash (keptLabels g m2) ↔ keptLabels g m1 = keptLabels g m2 :=
   grouped_identity o g m1 m2 hinj
 
-/-- **finding C08/agg-without-grouping-keeps-streams.** The full statement — a vector aggregation written without
-    `by`/`without` merges all series of a timestamp into one — is `vector_agg_ungrouped_full`. It does not hold:
-    `AggOpPlanner` then groups by the stream fingerprint, so two streams stay two series. -/
-theorem vector_agg_ungrouped_counterexample : ¬ vector_agg_ungrouped_full :=
-  LogQL.vector_agg_ungrouped_counterexample
-
-/-- what holds instead (partial): whatever the grouping, one output row per distinct (fingerprint, timestamp) of the
-    input — with a grouping clause the fingerprint is the recomputed one (`grouping_fingerprint_recomputed`), so
-    series merge exactly by kept label set; without one it is the stream's. -/
-theorem vector_agg_ungrouped_partial (o : Oracles) (db : Db) (env : Env) (fn : AggFn) (main : Sel) (T : Table) :
-    (evalBodyA o db ((.named "lra_main", T) :: env) (aggSel fn false main)).length =
-      ((T.map (qualify "lra_main")).map aggKey).eraseDups.length :=
-  aggSel_groups o db env fn false main T
-
 /-! ## comparison, top/bottom-k -/
 
 /-- **comparison.** The HAVING clause `ComparisonPlanner` adds keeps an output row iff its value satisfies the
@@ -346,11 +332,11 @@ theorem plan_metric_correct_range (o : Oracles) (c : MCtx) (hn : c.namesOk) (d :
     direct reading's: every range point moved to the series of its kept label set, the points of one (series,
     timestamp) aggregated by the written operator, both comparisons applied where written. -/
 theorem plan_metric_correct_agg (o : Oracles) (c : MCtx) (hn : c.namesOk) (d : LokiDb) (a : VecAgg) (fn : RangeFn)
-    (g : Grouping) (hk : a.inner.kind = .lra fn) (hg : chosenGrouping a.byPrefix a.bySuffix = some g)
+    (hk : a.inner.kind = .lra fn)
     (hm : a.inner.sel.matchers.length ≤ 63) (hms : 1000000 ∣ a.inner.durNs) (hd : 0 < a.inner.durNs)
     (hs : takesShortcut (.agg a) = false) (hstep : c.stepNs ≤ (a.inner.durNs : Int)) :
     (evalSelA o (d.toDbM c) (planMetric c (.agg a))).map normRow = evalMetric o c d (.agg a) :=
-  planMetric_agg_lra o c hn d a fn g hk hg hm hms hd hs hstep
+  planMetric_agg_lra o c hn d a fn hk hm hms hd hs hstep
 
 /-- **plan_metric_correct on the samples path, every query shape.** `q` is any metric query whose range aggregation is
     rate / count_over_time / bytes_rate / bytes_over_time and does not take the metrics_15s shortcut: the range
@@ -463,7 +449,21 @@ theorem output_series_identified_by_grouped_labels_plan (o : Oracles) (c : MCtx)
     (hsc : takesShortcut q = true → ShortcutOk o d q)
     (ha : q.agg? = some a) (hg : chosenGrouping a.byPrefix a.bySuffix = some g) :
     ∀ r ∈ evalSelA o (d.toDbM c) (planMetric c q), GroupedKL o g (r.get "fingerprint") (r.get "labels") :=
-  output_series_grouped o c hn d q a g hsup hsc ha hg
+  output_series_grouped o c hn d q a g hsup hsc ha (aggGrouping_of_some a g hg)
+
+/-- **vector_agg_ungrouped** (full strength, after the `fix:` 8ee6041 of C08/agg-without-grouping-keeps-streams). A vector
+    aggregation written without `by`/`without` (`sum(rate({…}[5s]))`) aggregates all series of a timestamp into ONE series,
+    the one of the empty label set: every row the statement returns carries the labels `{}` and the fingerprint
+    `cityHash64({})` (for a database in which a selected stream has no series row the join default `null` appears instead:
+    limit of the SQL model). `planAgg` plans the grouping of the empty label list (`by ()`:
+    `mapFilter((k,v) -> 0, labels)`), so `AggOpPlanner` groups by that one fingerprint and the timestamp. -/
+theorem vector_agg_ungrouped (o : Oracles) (c : MCtx) (hn : c.namesOk) (d : LokiDb) (q : MetricQuery) (a : VecAgg)
+    (hsup : supported q = true) (hsc : takesShortcut q = true → ShortcutOk o d q)
+    (ha : q.agg? = some a) (hnone : chosenGrouping a.byPrefix a.bySuffix = none) :
+    ∀ r ∈ evalSelA o (d.toDbM c) (planMetric c q),
+      (r.get "labels" = .map [] ∧ r.get "fingerprint" = .int (o.cityHash [])) ∨
+      (r.get "fingerprint" = .null ∧ r.get "labels" = .null) :=
+  ungrouped_one_series o c hn d q a hsup hsc ha hnone
 
 /-! ## the labelled path: selectors with `| json` / `| regexp` / `| drop`, and `quantile_over_time` -/
 
@@ -516,13 +516,12 @@ theorem no_entry_outside_window_contributes_ext (o : Oracles) (c : MCtx) (hn : c
   outside_window_irrelevantX o c hn d d' q hsup h
 
 /-- **output series are identified by exactly the grouped label set** (labelled path): every row returned for
-    `aggOp by/without g (…)` has as labels exactly what `g` keeps of a (rewritten) label set and as fingerprint cityHash64
-    of exactly those -/
+    `aggOp [by/without g] (…)` has as labels exactly what the grouping (`a.grouping`: the written one, `by ()` when none is
+    written) keeps of a (rewritten) label set and as fingerprint cityHash64 of exactly those -/
 theorem output_series_identified_by_grouped_labels_ext (o : Oracles) (c : MCtx) (hn : c.namesOk) (d : LokiDb)
-    (q : MetricQueryX) (a : VecOp) (g : Grouping) (hsup : supportedX q = true) (ha : q.agg = some a)
-    (hg : chosenGrouping a.byPrefix a.bySuffix = some g) :
-    ∀ r ∈ evalSelA o (d.toDbM c) (planMetricX c q), GroupedKL o g (r.get "fingerprint") (r.get "labels") :=
-  output_series_groupedX o c hn d q a g hsup ha hg
+    (q : MetricQueryX) (a : VecOp) (hsup : supportedX q = true) (ha : q.agg = some a) :
+    ∀ r ∈ evalSelA o (d.toDbM c) (planMetricX c q), GroupedKL o a.grouping (r.get "fingerprint") (r.get "labels") :=
+  output_series_groupedX o c hn d q a a.grouping hsup ha rfl
 
 /-- **every pipeline stage written in the query takes effect**: the direct reading the statement is proved equal to is a
     function of the entries `stagesX post (entriesAtJoin …)` — every stage of `post` applied in order — and of nothing else
@@ -543,7 +542,7 @@ example : takesShortcut (.range ⟨.lra .rate, ⟨[], [.line ⟨.notContains, []
 example : supported (.topk ⟨true, 2, .agg ⟨.sum, some ⟨true, ["a"]⟩, ⟨.lra .rate, ⟨[], []⟩, 60000000000, none, none, none⟩, none,
     some ⟨.gt, ⟨1, []⟩⟩⟩, none⟩) = true := by decide
 example : supported (.agg ⟨.count, none, ⟨.lra .bytesOverTime, ⟨[], []⟩, 7000000000, none, none, none⟩, some ⟨false, ["x"]⟩, none⟩) = true := by decide
-example : supported (.agg ⟨.sum, none, ⟨.lra .rate, ⟨[], []⟩, 5000000000, none, none, none⟩, none, none⟩) = false := by decide
+example : supported (.agg ⟨.sum, none, ⟨.lra .rate, ⟨[], []⟩, 5000000000, none, none, none⟩, none, none⟩) = true := by decide
 example : supportedU (.agg ⟨.max, some ⟨true, ["a"]⟩, ⟨.unwrap .firstOT "x", ⟨[], []⟩, 10000000000, none, some ⟨false, ["b"]⟩, none⟩, none, none⟩) = true := by decide
 example : supportedU (.range ⟨.unwrap .stddevOT "x", ⟨[], []⟩, 10000000000, none, none, none⟩) = true := by decide
 example : supported (.agg ⟨.stddev, some ⟨true, ["a"]⟩, ⟨.lra .rate, ⟨[], []⟩, 5000000000, none, none, none⟩, none, none⟩) = true := by decide
